@@ -247,7 +247,14 @@ def r7_vector_unit(run, tree):
     cf.check_vector_constructor(run, tree)
 
 
-RULES = [r1_r2_array_to, r3_vector_to, r4_constants, r5_registry, r6_end_to_end, r7_vector_unit]
+def r_masked(run, tree):
+    from . import array_folds as af
+    run.rule("C08.R8", "an Array holding a numpy masked array keeps the mask through construction, copy(), to(), indexing, .values and the numpy dispatch "
+             "(numpy.asarray / numpy.array on the way hand the hidden entries back as ordinary values)", "D7 fold of the Array class over a masked buffer token", "", floor=6)
+    af.check_masked_buffers(run, tree)
+
+
+RULES = [r_masked, r1_r2_array_to, r3_vector_to, r4_constants, r5_registry, r6_end_to_end, r7_vector_unit]
 
 
 def t_pair_space(run, tree):
